@@ -33,60 +33,6 @@ Fixpoint chain_wf (gp top : N) (ops : list cop) : Prop :=
   end.
 
 (* ------------------------------------------------------------------ *)
-(** * More map facts *)
-
-Section MapKeys.
-  Context {V : Type}.
-  Implicit Types m : list (key * V).
-
-  Lemma mremove_keys_In : forall k k' m, In k' (map fst (mremove k m)) <-> In k' (map fst m) /\ k' <> k.
-  Proof.
-    induction m as [|[k0 v] t IH]; cbn [mremove map In fst]; [tauto|].
-    destruct (key_eqb k k0) eqn:E.
-    - apply key_eqb_eq in E; subst. rewrite IH. split; [intros [H1 H2]; auto|intros [[H1|H1] H2]; [congruence|auto]].
-    - apply key_eqb_neq in E. cbn [map In fst]. rewrite IH. split.
-      + intros [H|[H1 H2]]; [subst; split; auto|auto].
-      + intros [[H|H] H2]; auto.
-  Qed.
-
-  Lemma mremove_keys_NoDup : forall k m, NoDup (map fst m) -> NoDup (map fst (mremove k m)).
-  Proof.
-    induction m as [|[k0 v] t IH]; cbn [mremove map fst]; intros H; [constructor|].
-    inversion H; subst. destruct (key_eqb k k0); [auto|].
-    cbn [map fst]. constructor; [rewrite mremove_keys_In; tauto|auto].
-  Qed.
-
-  Lemma mset_keys_NoDup : forall k v m, NoDup (map fst m) -> NoDup (map fst (mset k v m)).
-  Proof.
-    intros. unfold mset. cbn [map fst]. constructor; [rewrite mremove_keys_In; tauto|].
-    apply mremove_keys_NoDup; auto.
-  Qed.
-
-  Lemma mget_keys : forall k m, (exists v, mget k m = Some v) <-> In k (map fst m).
-  Proof.
-    induction m as [|[k0 v0] t IH]; cbn [mget map In fst].
-    - split; [intros [v H]; discriminate|tauto].
-    - destruct (key_eqb k k0) eqn:E.
-      + apply key_eqb_eq in E; subst. split; eauto.
-      + apply key_eqb_neq in E. rewrite IH. split; [auto|intros [H|H]; [congruence|auto]].
-  Qed.
-
-  Lemma In_mget_nodup : forall k v m, NoDup (map fst m) -> (In (k, v) m <-> mget k m = Some v).
-  Proof.
-    induction m as [|[k0 v0] t IH]; cbn [mget map In fst]; intros ND.
-    - split; [tauto|discriminate].
-    - inversion ND; subst. destruct (key_eqb k k0) eqn:E.
-      + apply key_eqb_eq in E; subst. split.
-        * intros [H|H]; [inversion H; reflexivity|]. exfalso. apply H1.
-          apply (in_map fst) in H. exact H.
-        * intros H; inversion H; auto.
-      + apply key_eqb_neq in E. rewrite <- IH by auto. split; [intros [H|H]; [inversion H; congruence|auto]|auto].
-  Qed.
-
-  Lemma mhas_false : forall k m, mhas k m = false <-> mget k m = None.
-  Proof. intros; unfold mhas; destruct (mget k m); split; congruence. Qed.
-End MapKeys.
-
 (* ------------------------------------------------------------------ *)
 (** * The coupling invariant between wallet and ledger *)
 
@@ -528,63 +474,6 @@ Proof.
 Qed.
 
 (* ---- create ---- *)
-Definition spent_rel (sl sl' : list (key * wslip)) : Prop :=
-  (NoDup (map fst sl) -> NoDup (map fst sl')) /\
-  forall k, mget k sl' = mget k sl \/ exists x, mget k sl = Some x /\ mget k sl' = Some (set_spent x).
-
-Lemma spent_rel_refl : forall sl, spent_rel sl sl.
-Proof. intros; split; auto. Qed.
-
-Lemma spent_rel_trans : forall a b c, spent_rel a b -> spent_rel b c -> spent_rel a c.
-Proof.
-  intros a b c [N1 R1] [N2 R2]. split; [auto|]. intros k.
-  destruct (R1 k) as [E1|(x & Hx & E1)], (R2 k) as [E2|(y & Hy & E2)].
-  - left; congruence.
-  - right. exists y. split; congruence.
-  - right. exists x. split; congruence.
-  - right. exists x. split; [auto|]. rewrite E1 in Hy. inversion Hy; subst. rewrite E2. reflexivity.
-Qed.
-
-Lemma gen_loop_frame : forall dbg pk thr req order sl bal nin g,
-  gen_loop dbg pk thr req order sl bal nin = Ok g -> spent_rel sl (g_slips g).
-Proof.
-  induction order as [|k t IH]; intros sl bal nin g Hg; cbn [gen_loop] in Hg.
-  - inversion Hg; subst. apply spent_rel_refl.
-  - destruct (mget k sl) as [x|] eqn:Hx; [|discriminate].
-    destruct (ws_bid x <=? thr); [eapply IH; eauto|].
-    destruct (req <=? nin); [inversion Hg; subst; apply spent_rel_refl|].
-    destruct (add64 dbg SITE_NOLAN_ADD nin (ws_amt x)); cbn [bind] in Hg; try discriminate.
-    destruct (sub64 dbg SITE_BAL_SUB bal (ws_amt x)); cbn [bind] in Hg; try discriminate.
-    destruct (gen_loop dbg pk thr req t (mset k (set_spent x) sl) v0 v) as [g'| |] eqn:E; cbn [bind] in Hg; try discriminate.
-    inversion Hg; subst. cbn [g_slips].
-    eapply spent_rel_trans; [|eapply IH; eauto].
-    split; [apply mset_keys_NoDup|]. intros k'. destruct (key_eq_dec k' k) as [->|Hne].
-    + right. exists x. rewrite mget_mset_same. auto.
-    + left. apply mget_mset_other; auto.
-Qed.
-
-Lemma create_frame : forall dbg w order keys pays fee latest gp w' out,
-  create dbg w order keys pays fee latest gp = Ok (w', out) ->
-  w_pk w' = w_pk w /\ spent_rel (w_slips w) (w_slips w') /\ incl (w_unspent w') (w_unspent w).
-Proof.
-  intros dbg w order keys pays fee latest gp w' out. unfold create.
-  destruct (sum64 dbg SITE_PAY_SUM 0 pays) as [total| |]; cbn [bind]; try discriminate.
-  assert (Hsame : w_pk w = w_pk w /\ spent_rel (w_slips w) (w_slips w) /\ incl (w_unspent w) (w_unspent w)).
-  { splits; auto using spent_rel_refl. intros x Hx; exact Hx. }
-  destruct (negb (Nlen pays =? Nlen keys)); [intros H; inversion H; subst; exact Hsame|].
-  cbv zeta.
-  destruct (add64 dbg SITE_REQ_ADD total (if w_balance w <? fee then 0 else fee)) as [req| |]; cbn [bind]; try discriminate.
-  destruct (w_balance w <? req); [intros H; inversion H; subst; exact Hsame|].
-  destruct (req =? 0).
-  - cbn [bind]. intros H; inversion H; subst; exact Hsame.
-  - unfold generate_slips.
-    destruct (skip_threshold dbg latest gp); cbn [bind]; try discriminate.
-    destruct (gen_loop dbg (w_pk w) v req order (w_slips w) (w_balance w) 0) as [g| |] eqn:Eg; cbn [bind]; try discriminate.
-    intros H; inversion H; subst. cbn [w_pk w_slips w_unspent]. splits; auto.
-    + eapply gen_loop_frame; eauto.
-    + intros x Hx. apply remove_all_In in Hx. tauto.
-Qed.
-
 Lemma fields_key_spent : forall pk x, fields_key pk (set_spent x) = fields_key pk x.
 Proof. reflexivity. Qed.
 
